@@ -23,7 +23,7 @@ ASSUMPTIONS = ['required set = nodes in expression / table / query positions (se
                'orderings, cast arguments, tuple items, INSERT values, UPDATE SET values, CTE bodies, set-operation sides, subqueries, DML targets)',
                'not required: aliases, CTE names/column lists, NativeQuery.integration, Update.from_select_alias, Star inside Identifier.parts, LIMIT/OFFSET constants',
                'order is judged on leaf nodes; wrappers the walker also passes (Join, OrderBy, lists) are tolerated at most once']
-BUDGET = {'quick': (8, 80), 'thorough': (16, 500)}
+BUDGET = {'quick': (8, 240), 'thorough': (16, 1800)}
 
 # class -> ordered list of (field, role); role: e = expression, t = table position, q = query, le/lt = list of, rules = CASE rules,
 # rows = list of lists, dict = dict values, target = select list, ob = list of OrderBy, cte = list of CTE objects
